@@ -13,14 +13,12 @@ import (
 	"0chain.net/core/cache"
 	"0chain.net/core/common"
 	"0chain.net/core/datastore"
-	"github.com/0chain/common/core/util"
 )
 
 // C45 hook. Adds code only. GenerateBlock and VerifyBlock are the real exported methods; the hook provides
 //   - a SECOND, independent miner chain object (the package keeps one singleton; the verifying node of the property is
 //     "another node", so it must not share the generator's chain object, state cache or node DB);
-//   - wrappers around the unexported selection pieces (validateTransaction, TxnIterInfo.checkForCurrent,
-//     isBuildInTxn) so that the harness can probe them one by one on real transactions and a real state.
+//   - a read-out of the pool's iteration order through the very store call generateBlock makes.
 
 // VerifC45NewChain builds a miner chain object around c exactly as SetupMinerChain does for the singleton.
 func VerifC45NewChain(c *chain.Chain) *Chain {
@@ -48,38 +46,6 @@ func VerifC45NewChain(c *chain.Chain) *Chain {
 	mc.verifyCachedVRFSharesWorker = common.NewWithContextFunc(1)
 	mc.generateBlockWorker = common.NewWithContextFunc(1)
 	return mc
-}
-
-// VerifC45Classify calls the real validateTransaction: "current" | "past" | "future" | "late" | "error".
-func (mc *Chain) VerifC45Classify(b *block.Block, bState util.MerklePatriciaTrieI, txn *transaction.Transaction) (string, int64) {
-	n, err := mc.validateTransaction(b, bState, txn, nil)
-	switch err {
-	case nil:
-		return "current", n
-	case PastTransaction:
-		return "past", n
-	case FutureTransaction:
-		return "future", n
-	case ErrNotTimeTolerant:
-		return "late", n
-	}
-	return "error", n
-}
-
-// VerifC45IsBuildIn calls the real isBuildInTxn.
-func (mc *Chain) VerifC45IsBuildIn(txn *transaction.Transaction) bool { return mc.isBuildInTxn(txn) }
-
-// VerifC45CheckForCurrent runs the real TxnIterInfo.checkForCurrent on a future list of one client and returns
-// (promoted, dropped as past, still future, recorded nonce).
-func VerifC45CheckForCurrent(included *transaction.Transaction, future []*transaction.Transaction, nonce int64) (cur, past, fut []*transaction.Transaction, n int64) {
-	tii := newTxnIterInfo(10)
-	tii.futureTxns[included.ClientID] = &clientNonceTxns{nonce: nonce, txns: future}
-	tii.checkForCurrent(included)
-	for _, e := range tii.pastTxns {
-		past = append(past, e.(*transaction.Transaction))
-	}
-	l := tii.futureTxns[included.ClientID]
-	return tii.currentTxns, past, l.txns, l.nonce
 }
 
 // VerifC45PoolOrder iterates the transaction pool exactly as generateBlock does (same store call, same collection)
